@@ -43,6 +43,7 @@ fn gen(t: Tier, _seed: u64, emit: &mut dyn FnMut(Case)) {
         emit(Case::Refuse { cid });
         let mut ns = wb_lengths(cid.bits(), t.pick(2, 3));
         ns.extend([4, 5, 7]);
+        ns.extend(long_lengths(cid.bits()));
         ns.sort();
         ns.dedup();
         for n in ns {
